@@ -18,6 +18,9 @@ from harness.pool import run_cases
 
 PROP = "C07"
 FOLLOW = [
+    # (a download without declared size first: whatever the disturbed transfer announced must be forgotten)
+    {"api": "open_w", "idx": 0x2000, "sub": 0, "data": [9, 8, 7, 6, 5, 4, 3, 2, 1, 0, 1, 2, 3], "size": -1, "buffering": 1024,
+     "chunks": [13], "mode": "wb", "force": False},
     {"api": "download", "idx": 0x2000, "sub": 0, "data": [11, 22, 33, 44, 55, 66, 77, 88, 99]},
     {"api": "upload", "idx": 0x2000, "sub": 0},
     {"api": "upload", "idx": 0x2007, "sub": 0},
